@@ -259,6 +259,31 @@ Definition st_insert (s : store) (name : string) (cols : list string) (vals : li
   | None => st_insert0 s name cols vals
   end.
 
+(* checkRowSizeLimit on an encoded row *)
+Definition check_row_size (bs : bytes) : res unit :=
+  if (MV <? length bs)%nat then Err ERowTooLarge else Ok tt.
+
+(* RelationService.encodeRow after the catalog-table test: everything Insert does before
+   BTree.insert (table lookup, fetch of the root page, schema, column count, column list,
+   Tuple.Encode); changes nothing *)
+Definition ins_precheck (s : store) (name : string) (cols : list string) (vals : list value)
+  : res (N * bytes) :=
+  do off <- rel_offset s name;
+  do _ <- get_tree s off;
+  do sch <- rel_schema s name;
+  let cols' := match cols with [] => map fd_name sch | _ => cols end in
+  if negb (Nat.eqb (length cols') (length vals)) then Err EColCount else
+  match cols_err (map fd_name sch) cols' [] with Some e => Err e | None =>
+  do bs <- encode_tuple sch (zip_set cols' vals []);
+  Ok (off, bs) end.
+
+(* RelationService.CheckInsert: encodeRow, then checkRowSizeLimit on the encoded row.
+   EvaluateInsert calls it for every row of the VALUES list before it stores the first one. *)
+Definition check_insert (s : store) (name : string) (cols : list string) (vals : list value) : res unit :=
+  if is_sys_table name then Err EOther else
+  do ob <- ins_precheck s name cols vals;
+  check_row_size (snd ob).
+
 (* RelationService.Update: the row with id rowid gets the SET values; scans the whole tree
    (without the column-list check, which st_update puts in front) *)
 Definition st_update0 (s : store) (name : string) (rowid : N) (cols : list string) (vals : list value)
@@ -304,6 +329,18 @@ Definition st_update (s : store) (name : string) (rowid : N) (cols : list string
   match upd_bad_cols s name cols with
   | Some e => (s, Err e)
   | None => st_update0 s name rowid cols vals
+  end.
+
+(* RelationService.CheckUpdate = update(..., checkOnly = true): the very code of Update up to and
+   including the size test of the re-encoded row (checkRowSizeLimit in place of updateCell's own
+   test), nothing is written, the log records are dropped. EvaluateUpdate calls it for every
+   matching row before it changes the first one. *)
+Definition check_update (s : store) (name : string) (rowid : N) (cols : list string) (vals : list value)
+  : res unit :=
+  match snd (st_update s name rowid cols vals) with
+  | Ok _ => Ok tt
+  | Err e => Err e
+  | Panic => Panic
   end.
 
 (* RelationService.MarkDeleted *)
@@ -390,9 +427,47 @@ Definition st_create_table0 (s : store) (name : string) (fds : schema) : store *
   | _ => (s, Err ETableExists)
   end.
 
-(* a column name used twice is refused before anything else (ErrDuplicateColumn) *)
+(* checkCatalogRows: the sys_pages row (with file_offset 0) and every sys_schema row of the new
+   table are encoded and measured (Tuple.Encode + checkRowSizeLimit), first error wins; the same
+   tuples insert_page_table / insert_schema_rows build *)
+Definition check_encoded (r : res bytes) : res unit := do bs <- r; check_row_size bs.
+
+Fixpoint check_schema_rows (tname : string) (fds : schema) : res unit :=
+  match fds with
+  | [] => Ok tt
+  | fd :: r =>
+      do _ <- check_encoded (encode_tuple schemaTableSchema
+                [("table_name", VStr tname); ("field_name", VStr (fd_name fd));
+                 ("field_type", VInt (code_of_coltype (fd_type fd))); ("field_length", VInt (fd_len fd))]);
+      check_schema_rows tname r
+  end.
+
+Definition check_catalog_rows (name : string) (fds : schema) : res unit :=
+  do _ <- check_encoded (encode_tuple pageTableSchema [("table_name", VStr name); ("file_offset", VInt 0)]);
+  check_schema_rows name fds.
+
+(* the catalog-row check of createTable: reached only when the table does not exist yet (after
+   the table-exists test, before createPage); Some r = the check refuses with outcome r *)
+Definition create_bad_rows (s : store) (name : string) (fds : schema) : option (res unit) :=
+  match rel_offset s name with
+  | Err ETableNotExist =>
+      match check_catalog_rows name fds with
+      | Ok _ => None
+      | r => Some r
+      end
+  | _ => None
+  end.
+
+(* RelationService.createTable: a column name used twice is refused before anything else
+   (ErrDuplicateColumn); then the table-exists test; then checkCatalogRows; then
+   st_create_table0 (whose own table-exists test gives the same answer again) *)
 Definition st_create_table (s : store) (name : string) (fds : schema) : store * res unit :=
-  if names_distinct (map fd_name fds) then st_create_table0 s name fds else (s, Err EOther).
+  if names_distinct (map fd_name fds) then
+    match create_bad_rows s name fds with
+    | Some r => (s, r)
+    | None => st_create_table0 s name fds
+    end
+  else (s, Err EOther).
 
 (* ---- flush: every dirty page and the header are written; pages become clean ---- *)
 Fixpoint clean_tree (t : tree) : tree :=
